@@ -140,6 +140,51 @@ func onlyNextIndex(c *core.Ctx, rule string) {
 		}
 	}
 	c.Hold(rule, construct, fmt.Sprintf("every write of AddLeaf lies behind int64(leaf.Index) == lastIndex+1, re-established after each of the %d frontier rebuild(s)", len(starts)-1))
+	// a mismatch that survives the rebuild is reported as ErrInvalidIndex — the one error the bridge syncer latches its
+	// halt on (any other error is retried as a transient fault and, for an index that went backwards, never halts)
+	mismatch := core.TermEdges(fn, sx, func(s string, _ *core.Term) bool {
+		return s == "(conv:int64(leaf.Index) == (t.lastIndex + const(1)))" || s == "((t.lastIndex + const(1)) == conv:int64(leaf.Index))"
+	}, false)
+	isInit := func(i ssa.Instruction) bool { return core.IsCallTo(i, "(*tree.AppendOnlyTree).initCache") }
+	var bad *core.Found
+	for _, e := range mismatch {
+		start, env0 := core.AfterEdge(e)
+		f := (&core.Walk{Stop: isInit, EdgeOK: core.Forbid(match), TargetPath: func(i ssa.Instruction, path []int) bool {
+			r, ok := i.(*ssa.Return)
+			if !ok || len(r.Results) != 1 {
+				return false
+			}
+			return sx.Of(core.ResolveOnPath(r.Results[0], path)).String() != "tree.ErrInvalidIndex"
+		}}).From(start, env0)
+		if f != nil {
+			bad = f
+		}
+	}
+	// after a rebuild (which only happens on a mismatch) the same holds until the index was found to match; the rebuild's
+	// own error is passed on
+	core.Instrs(fn, func(i ssa.Instruction) {
+		cl, ok := i.(*ssa.Call)
+		if !ok || !isInit(i) {
+			return
+		}
+		f := (&core.Walk{Stop: func(x ssa.Instruction) bool { return x != i && isInit(x) }, EdgeOK: core.Forbid(match), TargetPath: func(x ssa.Instruction, path []int) bool {
+			r, ok := x.(*ssa.Return)
+			if !ok || len(r.Results) != 1 {
+				return false
+			}
+			v := core.ResolveOnPath(r.Results[0], path)
+			return v != ssa.Value(cl) && sx.Of(v).String() != "tree.ErrInvalidIndex"
+		}}).From(core.After(i), nil)
+		if f != nil {
+			bad = f
+		}
+	})
+	c2 := "tree.(*AppendOnlyTree).AddLeaf#mismatch-is-ErrInvalidIndex"
+	if bad != nil {
+		c.Violate(rule, c2, bad.Instr.Pos(), "an index mismatch (without a further rebuild) ends with an error other than ErrInvalidIndex: "+core.PathStr(bad))
+	} else {
+		c.Decide(len(mismatch) > 0, rule, c2, fn.Pos(), "every exit on a mismatching index that is not followed by a rebuild returns tree.ErrInvalidIndex")
+	}
 }
 
 // nodeHashRule: node hash = keccak(left ‖ right) computed with a hasher of its own, and the zero-hash recurrence.
@@ -310,6 +355,8 @@ func init() {
 			{ID: "C01-step", Floor: 6, Run: c01Step, Text: "[TREE]+[LAYOUT] orientation / level indexing of AddLeaf and initCache; node hash; zero hashes"},
 			{ID: "C01-immutable", Floor: 2, Run: c01Immutable, Text: "[WHO] event objects are not modified between download and leaf hash / storage"},
 			{ID: "C01-feed", Floor: 14, Run: c01Feed, Text: "[PROV]+[DOM]+[FIELDMAP] leaf fed from the same event; no row without leaf; downloader field map"},
+			{ID: "C01-schema", Floor: 30, Run: func(c *core.Ctx) { schemaTypesRule(c, "C01-schema", "bridgesync", "tree") }, Text: "[SCHEMA-TYPES] integer columns have INTEGER affinity (numeric ORDER BY), big.Int text columns have TEXT affinity (no lossy REAL)"},
+			{ID: "C01-conflate", Floor: 4, Run: shared("C01-conflate", c05Conflate), Text: "(shared with C05-conflate) a failed log query is never answered like an empty range: deposits of a finalized range would be skipped for good"},
 			{ID: "C01-store", Floor: 6, Run: func(c *core.Ctx) { storeRule(c, "C01-store") }, Text: "(shared with C08-store) every path node is stored; not-found only for missing rows; last root by (block_num, block_position) — what initCache rebuilds the frontier from after a restart"},
 			{ID: "C01-restart", Floor: 8, Run: c01Restart, Text: "[WHO]+[DOM] sentinel, frontier writers, mismatch rebuild (shared with TX-mem); trees built on the store's database"},
 		},
